@@ -537,7 +537,7 @@ pub fn strategy(ctx: &Ctx) -> BoxedStrategy<Case> {
             let alpha = if alpha_open { Just(1.0f32).boxed() } else { prop_oneof![3 => Just(1.0f32), 1 => Just(0.5f32), 2 => 0.0f32..=1.0].boxed() };
             // zoom: the same picture described in user units that are `zoom` times smaller under a CTM that is
             // `zoom` times larger (a drawing in metres shown at 1:4096, or in device-independent units at 1/64)
-            let zoom = prop_oneof![10 => Just(1.0f32), 1 => Just(4096.0f32), 1 => Just(65536.0f32), 1 => Just(256.0f32), 1 => Just(1.0f32 / 64.0)];
+            let zoom = prop_oneof![10 => Just(1.0f32), 1 => Just(4096.0f32), 1 => Just(65536.0f32), 1 => Just(256.0f32), 1 => Just(1.0f32 / 64.0), 1 => Just(1.0f32 / 4096.0)];
             let own = prop_oneof![3 => Just(None), 1 => xf_invertible(4.0).prop_map(Some)];
             // anisotropic: one axis of user space stretched 10..40 times more than the other, looking at a place
             // thousands of user units from the user-space origin along the squeezed axis (a chart with very
